@@ -177,7 +177,8 @@ def scenarios(algs):
     if not any(a.get('feedback') for a in algs):
         roots_ = [i for i in range(n) if not algs[i]['inputs'] and algs[i]['kind'] != 'analysis']
         if roots_:
-            out.append(('epochs', [('epochs', [(roots_[0], 1), (roots_[0], 1), (roots_[-1], 2), (roots_[0], 1)])]))
+            out.append(('epochs', [('epochs', [(roots_[0], 1), (roots_[0], 1), (roots_[-1], 2), (roots_[0], 1)], None)]))
+            out.append(('epochs-dbfault', [('epochs', [(roots_[0], 1), (roots_[-1], 2), (roots_[0], 1)], 1)]))
     out.append(('dbfault-first-job', [('orgall', None, 'all'), ('dbfail',), ('disp',), ('disp',),
                                       ('pump', 'success', None)]))
     out.append(('waiters', [('orgall', None, 'all'), ('waiters',), ('pump', 'success', None), ('joinwaiters',)]))
@@ -571,7 +572,7 @@ class Run:
         self.ran.add((i, t))
         return news
 
-    def epoch_run(self, bumps, limit):
+    def epoch_run(self, bumps, limit, fault_at=None):
         """full run of the engine, then root re-runs with changed content, each driven to
         quiescence; finally the store must equal a from-scratch evaluation"""
         env = self.env
@@ -589,12 +590,17 @@ class Run:
 
         self.do_organize(list(env.tags), None, list(env.targets))
         ok = to_idle()
-        for (root, t) in bumps:
+        for n_bump, (root, t) in enumerate(bumps):
             self.epochs[(root, t)] = self.epochs.get((root, t), 0) + 1
             self.do_organize([env.tags[root]], None, [t])
+            if fault_at == n_bump:
+                env.fail_next_db = True   # the database fails once inside the next dispatch tick
             ok = to_idle() and ok
         if not ok:
             self.hit('C04', 'no-quiescence', 'epoch scenario did not reach quiescence')
+            self.hit('C02', 'stale-result-at-quiescence',
+                     f'after root re-runs {bumps} the pipeline never finishes the reprocessing '
+                     f'(in flight {self.inflight[:4]}), so the stored results stay stale')
             return
         # from-scratch evaluation in dependency order with the final epochs
         fresh = {}
@@ -715,7 +721,9 @@ def run_history(env, res, want, algs, ops, r, lines, pending, tag):
         elif kind == 'epochs':
             if 'C02' in want and len(env.targets) >= 2:
                 bumps = [(r_, env.targets[k - 1]) for r_, k in op[1]]
-                run.epoch_run(bumps, 4 * len(env.tags) * (len(env.targets) + 2) + 8)
+                if op[2] is not None:
+                    run.no_model = True
+                run.epoch_run(bumps, 4 * len(env.tags) * (len(env.targets) + 2) + 8, op[2])
         elif kind == 'replyu':
             x = env.tags[op[1]]
             t = env.targets[op[2] - 1] if 0 < op[2] <= len(env.targets) else None
